@@ -5,6 +5,7 @@ package main
 import (
 	"fmt"
 	"go/ast"
+	"go/constant"
 	"go/token"
 	"go/types"
 	"strings"
@@ -165,8 +166,14 @@ func (ex *Exec) convert(st *State, x *Val, t types.Type, pos token.Pos) *Val {
 	return v
 }
 
+// strOf: the string denoted by a byte window (a pure function of the contents).
+func (ex *Exec) strOf(arr, off, ln *Term) *Term {
+	return ex.D.app("st.of", SStr, arr, off, ln)
+}
+
 func (ex *Exec) bytesToString(st *State, s *Term) *Term {
 	r := ex.fresh("str", SStr)
+	st.assume(eq(r, ex.strOf(sel(ex.mem(st, tByte), ex.sRef(s)), ex.sOff(s), ex.sLen(s))))
 	st.assume(eq(ex.strLen(r), ex.sLen(s)))
 	k := mk("k?", SInt)
 	inner := sel(ex.mem(st, tByte), ex.sRef(s))
@@ -184,6 +191,7 @@ func (ex *Exec) stringToBytes(st *State, s *Term) *Term {
 	st.assume(forall([]*Term{k}, implies(and(ge(k, intLit(0)), lt(k, n)), eq(sel(arr, k), ex.strAt(s, k))), []*Term{sel(arr, k)}))
 	name, _ := ex.memName(tByte)
 	st.heaps[name] = store(ex.mem(st, tByte), ref, arr)
+	st.assume(eq(ex.strOf(arr, intLit(0), n), s))
 	return sl
 }
 
@@ -448,6 +456,7 @@ func (ex *Exec) apply(st *State, fn *Val, args []*Val, e *ast.CallExpr) []*Val {
 		}
 	}
 	ex.W.Abstr["call through function value "+name+" in "+ex.FName+" (no effect on caller-visible state assumed)"] = true
+	ex.runHooks(st, "enter", name, args, nil, pos)
 	ex.runHooks(st, "call", name, args, results, pos)
 	return results
 }
@@ -483,6 +492,9 @@ func (ex *Exec) applyFunc(st *State, fn *types.Func, args []*Val, e *ast.CallExp
 				st.assume(not(eq(args[0].Term, intLit(0))))
 			}
 		}
+	}
+	for _, k := range hookKeys(fn) {
+		ex.runHooks(st, "enter", k, args, nil, pos)
 	}
 	// Go-coded library models
 	if m, ok := libModels[key]; ok {
@@ -542,15 +554,20 @@ func (ex *Exec) runHooks(st *State, kind, target string, args, results []*Val, p
 		return
 	}
 	for _, h := range ex.FSpec.Hooks {
-		if h.Kind != kind || h.Target != target {
+		if h.Kind != kind || strings.TrimSuffix(h.Target, "()") != strings.TrimSuffix(target, "()") {
 			continue
 		}
 		ex.hookDepth++
 		saved := map[string]*Val{}
+		savedNames := map[string]types.Object{}
 		bind := func(names []string, vals []*Val) {
 			for i, n := range names {
 				if n == "_" || i >= len(vals) {
 					continue
+				}
+				if o, ok := st.names[n]; ok {
+					savedNames[n] = o
+					delete(st.names, n)
 				}
 				saved[n] = st.bound[n]
 				v := vals[i]
@@ -574,6 +591,11 @@ func (ex *Exec) runHooks(st *State, kind, target string, args, results []*Val, p
 				st.bound[n] = v
 			}
 		}
+		for n, o := range savedNames {
+			if _, redefined := st.names[n]; !redefined {
+				st.names[n] = o
+			}
+		}
 		ex.hookDepth--
 	}
 }
@@ -595,7 +617,8 @@ func (ex *Exec) applyContract(st *State, fn *types.Func, fs *FuncSpec, u *Unit, 
 	for i, n := range fs.Params {
 		a := args[i]
 		if a.Term == nil && a.Const == nil {
-			a = &Val{T: a.T, Term: ex.funcRef(cs, a), Lit: a.Lit, Fn: a.Fn}
+			a = &Val{T: a.T, Term: ex.funcRef(st, a), Lit: a.Lit, Fn: a.Fn}
+			cs.pc = append([]*Term(nil), st.pc...)
 		}
 		cs.bound[n] = a
 	}
@@ -610,7 +633,15 @@ func (ex *Exec) applyContract(st *State, fn *types.Func, fs *FuncSpec, u *Unit, 
 			}
 		}
 	}
+	// callee ghost locals without initialiser are chosen by the callee
+	ghostNames := map[string]bool{}
+	for _, g := range fs.Ghosts {
+		ghostNames[g.Name] = true
+	}
 	for _, c := range fs.Requires {
+		if mentionsIdent(c.Expr, ghostNames) {
+			continue // about the callee's own ghost state
+		}
 		g := ex.evalSpecBool(cs, c.Expr, u, where(c))
 		// facts created during evaluation
 		ex.adoptFacts(st, cs)
@@ -646,6 +677,9 @@ func (ex *Exec) applyContract(st *State, fn *types.Func, fs *FuncSpec, u *Unit, 
 	}
 	post.pc = append([]*Term(nil), st.pc...)
 	for _, c := range fs.Ensures {
+		if mentionsIdent(c.Expr, ghostNames) {
+			continue
+		}
 		g := ex.evalSpecBool(post, c.Expr, u, where(c))
 		ex.adoptFacts(st, post)
 		st.assume(g)
@@ -891,6 +925,14 @@ func (ex *Exec) recv(st *State, chExpr ast.Expr, pos token.Pos) []*Val {
 			st.assume(implies(not(ok.Term), eq(v.Term, z.Term)))
 		}
 	}
+	if call, isCall := ast.Unparen(chExpr).(*ast.CallExpr); isCall {
+		if fn := ex.calleeOf(call); fn != nil && calleeKey(fn) == "context.Context.Done" {
+			if sel, ok := ast.Unparen(call.Fun).(*ast.SelectorExpr); ok {
+				c := ex.expr(st, sel.X)
+				ex.setCtxDone(st, c.Term, tTrue)
+			}
+		}
+	}
 	ex.runHooks(st, "recv", exprText(chExpr), []*Val{v, ok}, nil, pos)
 	return []*Val{v, ok}
 }
@@ -901,5 +943,142 @@ func (ex *Exec) send(st *State, chExpr ast.Expr, val ast.Expr, pos token.Pos) {
 	if c, ok := ch.T.Underlying().(*types.Chan); ok {
 		v = ex.coerce(st, v, c.Elem())
 	}
+	ex.noblockCheck(st, chExpr, pos)
 	ex.runHooks(st, "send", exprText(chExpr), []*Val{v}, nil, pos)
+}
+
+// noblockCheck: a send on a channel created locally (make) must not be able
+// to block forever once its consumer has left: either it is a select arm next
+// to a <-ctx.Done() arm (or default), or the number of sends ever made is
+// bounded by the channel's constant capacity.
+func (ex *Exec) noblockCheck(st *State, chExpr ast.Expr, pos token.Pos) {
+	id, ok := ast.Unparen(chExpr).(*ast.Ident)
+	if !ok {
+		ex.W.Trusted["channel "+exprText(chExpr)+" has a process-lifetime consumer (sends assumed not to block forever)"] = true
+		return
+	}
+	obj := ex.Info.ObjectOf(id)
+	if obj == nil {
+		return
+	}
+	capacity, fd := ex.U.localChanCap(ex, obj)
+	if fd == nil {
+		return // not created by make in this package: parameter or field
+	}
+	if ex.selHasDone != nil && *ex.selHasDone {
+		ex.obligeAST("noblock", id.Name+"<-", pos, true, "", nil)
+		return
+	}
+	// capacity argument: count static sends outside loops
+	sends, inLoop := 0, false
+	var walk func(n ast.Node, loop bool)
+	walk = func(n ast.Node, loop bool) {
+		ast.Inspect(n, func(x ast.Node) bool {
+			if x == nil || x == n {
+				return true
+			}
+			switch y := x.(type) {
+			case *ast.ForStmt:
+				walk(y, true)
+				return false
+			case *ast.RangeStmt:
+				walk(y, true)
+				return false
+			case *ast.SendStmt:
+				if cid, ok := ast.Unparen(y.Chan).(*ast.Ident); ok && ex.Info.ObjectOf(cid) == obj {
+					sends++
+					if loop {
+						inLoop = true
+					}
+				}
+			}
+			return true
+		})
+	}
+	walk(fd.Body, false)
+	okCap := !inLoop && capacity >= 0 && int64(sends) <= capacity
+	ex.obligeAST("noblock", id.Name+"<-", pos, okCap,
+		fmt.Sprintf("%s: send on locally created channel %s (capacity %d, %d static sends, in loop: %v) is neither a select arm beside <-ctx.Done()/default nor bounded by the capacity: the sender can block forever after the receiver has left", ex.posStr(pos), id.Name, capacity, sends, inLoop), nil)
+}
+
+// localChanCap finds `x := make(chan T, N)` defining obj; returns N (0 if absent, -1 if not constant).
+func (u *Unit) localChanCap(ex *Exec, obj types.Object) (int64, *ast.FuncDecl) {
+	for _, f := range u.Pkg.Syntax {
+		for _, d := range f.Decls {
+			fd, ok := d.(*ast.FuncDecl)
+			if !ok || fd.Body == nil || obj.Pos() < fd.Pos() || obj.Pos() > fd.End() {
+				continue
+			}
+			var res int64 = -2
+			ast.Inspect(fd.Body, func(x ast.Node) bool {
+				as, ok := x.(*ast.AssignStmt)
+				if !ok {
+					if vs, ok := x.(*ast.ValueSpec); ok {
+						for i, n := range vs.Names {
+							if u.Pkg.TypesInfo.Defs[n] == obj && i < len(vs.Values) {
+								res = makeChanCap(u, vs.Values[i])
+							}
+						}
+					}
+					return true
+				}
+				for i, l := range as.Lhs {
+					if id, ok := l.(*ast.Ident); ok && u.Pkg.TypesInfo.Defs[id] == obj && i < len(as.Rhs) {
+						res = makeChanCap(u, as.Rhs[i])
+					}
+				}
+				return true
+			})
+			if res != -2 {
+				return res, fd
+			}
+		}
+	}
+	return 0, nil
+}
+
+func makeChanCap(u *Unit, e ast.Expr) int64 {
+	call, ok := ast.Unparen(e).(*ast.CallExpr)
+	if !ok {
+		return -2
+	}
+	id, ok := call.Fun.(*ast.Ident)
+	if !ok || id.Name != "make" {
+		return -2
+	}
+	if _, ok := u.Pkg.TypesInfo.TypeOf(call.Args[0]).Underlying().(*types.Chan); !ok {
+		return -2
+	}
+	if len(call.Args) < 2 {
+		return 0
+	}
+	if tv, ok := u.Pkg.TypesInfo.Types[call.Args[1]]; ok && tv.Value != nil {
+		if n, ok := constantInt64(tv); ok {
+			return n
+		}
+	}
+	return -1
+}
+
+// mentionsIdent reports whether src mentions one of the names as an identifier.
+func mentionsIdent(src string, names map[string]bool) bool {
+	if len(names) == 0 {
+		return false
+	}
+	e, err := parseSpecExpr(src)
+	if err != nil {
+		return false
+	}
+	found := false
+	ast.Inspect(e, func(n ast.Node) bool {
+		if id, ok := n.(*ast.Ident); ok && names[id.Name] {
+			found = true
+		}
+		return !found
+	})
+	return found
+}
+
+func constantInt64(tv types.TypeAndValue) (int64, bool) {
+	return constant.Int64Val(constant.ToInt(tv.Value))
 }
